@@ -92,6 +92,18 @@ pub fn documented_elements() -> Vec<String> {
     for b in ["fid", "projid", "mirror-count", "stripe-count", "stripe-size", "xattr:user", "xattr:a"] {
         v.push(format!("%{{{b}}}"));
     }
+    // attribute names made of letters that are words of the sources under test (fid, projid, ...)
+    for w in crate::dict::words() {
+        if w.chars().all(|c| c.is_ascii_alphabetic()) && w.len() <= 12 {
+            v.push(format!("%{{xattr:{w}}}"));
+        }
+    }
+    // any one character may follow %A / %C / %T
+    for k in ['\t', '\n', '\r', '\u{7f}', '\u{85}', '\u{a0}', '\u{1}', 'é', '😀', ' ', '%', '\\', '{'] {
+        for a in ['A', 'C', 'T'] {
+            v.push(format!("%{a}{k}"));
+        }
+    }
     for e in "abcfnrtv0\\".chars() {
         v.push(format!("\\{e}"));
     }
